@@ -43,7 +43,7 @@ def gen(run, g, num, seed, steps, policy=False):
     v.require_design_ok(res, "SpeakerGen " + g)
     if not res.printed:
         raise v.MachineryError("SpeakerGen printed no behaviours:\n" + res.out[-2000:])
-    return thin(res.printed, seed, None if run.tier == "thorough" else 6)
+    return thin(res.printed, seed, 24 if run.tier == "thorough" else 6)
 
 
 def tmo(behs):
